@@ -8,7 +8,7 @@
 From Coq Require Import QArith List Arith Bool.
 From VZ Require Import Model.K19_RowWise Model.K15_HistKDE Model.K15_KDEexec Model.C01_NumericRows.
 From VZ Require Import Proofs.K19_RowWise_proofs Proofs.C01_NumericRows_proofs.
-From VZ Require Model.K17_LOTglue Properties.C12 Properties.C08 Properties.C20_kde.
+From VZ Require Model.K17_LOTglue Properties.C12 Properties.C08 Proofs.K15_KDEgrid_proofs.
 Import ListNotations.
 Open Scope nat_scope.
 
@@ -59,9 +59,10 @@ Proof.
 Qed.
 Print Assumptions C01_kde_rows.
 
-(* the grid fitted by either strategy has exactly n_components points (restated from C20_kde_grid_length) *)
+(* the grid fitted by either strategy has exactly n_components points (the lemma behind C20_kde_grid_length; not taken
+   from Properties/C20_kde.v only to keep the real-number library out of this file) *)
 Theorem C01_kde_fitted_width : forall density flat n, length (kde_fit_grid density flat n) = n.
-Proof. exact C20_kde.C20_kde_grid_length. Qed.
+Proof. exact K15_KDEgrid_proofs.kde_fit_grid_length. Qed.
 Print Assumptions C01_kde_fitted_width.
 
 (* the width test of `result[i] = row` is what the hypothesis length grid = n_components is for *)
